@@ -435,6 +435,13 @@ func hobCodec(r *mc.Run) {
 func eventCodecs(r *mc.Run) {
 	strs := []string{"", "a", "Google, Inc.", strings.Repeat("x", 254)}
 	locs := [][]byte{nil, {1}, bytes.Repeat([]byte{7}, 300)}
+	richEvent, err := (&eventlog.SP800155Event3{PlatformManufacturerID: 0x11223344, ReferenceManifestGUID: eventlog.EfiGUID{UUID: uuid.MustParse(guids[1])},
+		PlatformManufacturerStr: eventlog.ByteSizedCStr{Data: strings.Repeat("R", 200)}, PlatformModel: eventlog.ByteSizedCStr{Data: strings.Repeat("S", 100)}, PlatformVersion: eventlog.ByteSizedCStr{Data: "rich"},
+		FirmwareManufacturerStr: eventlog.ByteSizedCStr{Data: strings.Repeat("T", 50)}, FirmwareManufacturerID: 0x55667788, FirmwareVersion: eventlog.ByteSizedCStr{Data: "9.9.9"},
+		RIMLocatorType: 2, RIMLocator: eventlog.Uint32SizedArray{Data: bytes.Repeat([]byte{0xAA}, 500)}, PlatformCertLocatorType: 3, PlatformCertLocator: eventlog.Uint32SizedArray{Data: bytes.Repeat([]byte{0xBB}, 400)}}).MarshalToBytes()
+	if err != nil {
+		mc.Fatal("rich event: %v", err)
+	}
 	for _, s1 := range strs {
 		for _, s2 := range strs[:3] {
 			for _, loc := range locs {
@@ -474,6 +481,17 @@ func eventCodecs(r *mc.Run) {
 						back := &eventlog.SP800155Event3{}
 						if err := back.UnmarshalFromBytes(body); err != nil || !sameEvent(back, ev) {
 							r.Violation("sp800155/roundtrip", "sp800155", fmt.Sprintf("decode(encode(v)) != v (%v)", err), nil)
+						}
+						// decoding into a value that was decoded into before (a reused scratch struct) gives
+						// the same result as decoding into a fresh one
+						used := &eventlog.SP800155Event3{}
+						if err := used.UnmarshalFromBytes(richEvent[16:]); err != nil {
+							mc.Fatal("rich event does not decode: %v", err)
+						}
+						if err := used.UnmarshalFromBytes(body); err != nil || !sameEvent(used, ev) {
+							r.Violation("sp800155/decode-into-used-value-differs", "sp800155", fmt.Sprintf("decoding into a value that held another event gives a different result than decoding into a fresh one (%v)", err), nil)
+						} else if re, _ := used.MarshalToBytes(); !bytes.Equal(re, enc) {
+							r.Violation("sp800155/decode-into-used-value-differs", "sp800155", "an event decoded into a used value re-encodes to different bytes", nil)
 						}
 						// zero padding 0..8 is tolerated and re-encodes to the unpadded bytes; other trailing bytes are refused
 						for pad := 0; pad <= 8; pad++ {
@@ -529,6 +547,9 @@ func eventCodecs(r *mc.Run) {
 				if err := l.Marshal(&re); err != nil || !bytes.Equal(re.Bytes(), enc) {
 					r.Violation("tcglog/reencode-differs", "tcg log", "decode then encode does not reproduce the bytes", nil)
 				}
+				// (Decoding a log into a value that already holds events appends to them on the current
+				// tree; the statement does not say what a reused log value should hold, so that is not
+				// judged. Events and sized arrays, which replace their contents, are judged above/below.)
 				for k := 0; k < len(enc); k++ {
 					t := &eventlog.CryptoAgileLog{}
 					if err := t.Unmarshal(bytes.NewReader(enc[:k])); err == nil {
@@ -562,6 +583,31 @@ func eventCodecs(r *mc.Run) {
 				if (&eventlog.ByteSizedCStr{}).Unmarshal(bytes.NewReader(want[:k])) == nil {
 					r.Violation("cstr/truncated-accepted", "cstr truncation", fmt.Sprintf("a %d-byte prefix of a %d-byte string was accepted", k, len(want)), nil)
 					break
+				}
+			}
+			return "ok"
+		})
+	}
+	for _, d := range [][]byte{nil, {1}, bytes.Repeat([]byte{5}, 70)} {
+		d := d
+		check(r, fmt.Sprintf("u32array len=%d into-used-value", len(d)), func() string {
+			var enc bytes.Buffer
+			if err := (&eventlog.Uint32SizedArray{Data: d}).Marshal(&enc); err != nil {
+				r.Violation("u32array/marshal", "u32array", err.Error(), nil)
+				return "err"
+			}
+			want := append(le(uint64(len(d)), 4), d...)
+			if !bytes.Equal(enc.Bytes(), want) {
+				r.Violation("u32array/layout", "u32array", "Uint32SizedArray is not {size u32, bytes}", nil)
+			}
+			for _, prior := range [][]byte{nil, []byte("abc"), bytes.Repeat([]byte{9}, 100)} {
+				a := &eventlog.Uint32SizedArray{}
+				a.Unmarshal(bytes.NewReader(append(le(uint64(len(prior)), 4), prior...)))
+				var re bytes.Buffer
+				if err := a.Unmarshal(bytes.NewReader(want)); err != nil || !bytes.Equal(a.Data, d) {
+					r.Violation("u32array/decode-into-used-value-differs", "u32array", fmt.Sprintf("decoding %d bytes into a value that held %d bytes yields %d bytes (%v)", len(d), len(prior), len(a.Data), err), nil)
+				} else if a.Marshal(&re); !bytes.Equal(re.Bytes(), want) {
+					r.Violation("u32array/decode-into-used-value-differs", "u32array", "re-encoding differs", nil)
 				}
 			}
 			return "ok"
